@@ -368,12 +368,27 @@ func (x *runner) engineRan(e *env, w *ref.World, q Request, eng int, res result)
 	}
 }
 
+// inUniverse: the subject's object is one the reference evaluates (a userset subject over an object
+// outside the universe would be reflexively related to an object the reference does not know).
+func inUniverse(u ref.Universe, sub string) bool {
+	o, _ := ref.SplitUser(sub)
+	if ref.IsWild(o) {
+		return true
+	}
+	for _, x := range u[ref.TypeOf(o)] {
+		if x == o {
+			return true
+		}
+	}
+	return false
+}
+
 func requests(w *ref.World) []Request {
 	var out []Request
 	for _, rc := range e2.ReqContexts(w) {
 		for _, sub := range e2.Subjects {
 			for _, t := range targets {
-				if !e2.ValidRequest(w.M, w.U[t[0]][0], t[1], sub) {
+				if len(w.U[t[0]]) == 0 || !inUniverse(w.U, sub) || !e2.ValidRequest(w.M, w.U[t[0]][0], t[1], sub) {
 					continue
 				}
 				out = append(out, Request{t[0], t[1], sub, rc})
@@ -523,6 +538,24 @@ func Run(o *core.Options) int {
 		}
 		x.mainWorld(e, w, wc)
 	})
+
+	// nested set operators over one object (ref.FlatFamily), up to 4 tuples (6 in thorough)
+	{
+		kf := 4
+		if o.Thorough() {
+			kf = 6
+		}
+		flat := e2.ValidModels(ref.FlatFamily())
+		r.Set("flat_family_models", len(flat))
+		r.Set("max_tuples_flat_sweep", kf)
+		x.sweep("flat", flat, ref.FlatUniverse(), kf, 1, []int{0}, 0, func(e *env, w *ref.World, idx int) {
+			if len(w.Tuples) == 0 {
+				return
+			}
+			r.Count("flat_worlds", 1)
+			x.mainWorld(e, w, false)
+		})
+	}
 
 	var lim []*ref.Model
 	if b.limitStride < len(reps) {
